@@ -27,8 +27,8 @@ BOUNDS = {
     "thorough": "2..6 runs, 1..4 workers; 2 interferences (the second within 8 registry accesses of the first)",
 }
 ASSUMPTIONS = ["dict operations are atomic (GIL); interleavings inside a single dict operation are outside",
-               "the other worker's actions are the two registry mutations get_iter performs (register temp merge plugin, "
-               "delete every _temp* key); its reads do not disturb",
+               "the other worker's actions are the mutations of the SHARED plugin registry that the real get_array performs "
+               "(recorded from a real call on the same context); its reads do not disturb",
                "per-run results are concrete; the completion order / failure set / interference points are symbolic"]
 OUTSIDE = ["free-threaded CPython", "OS-level preemption inside C code", "process pools"]
 STUBS = ["strax.utils.ThreadPoolExecutor / wait -> solver-driven stub", "instrumented registry dict", "np/int/min/max shims"]
@@ -164,23 +164,47 @@ class SpyDict(dict):
         return self._iter(dict.__iter__(self))
 
 
+class RecDict(dict):
+    """registry that records every mutation applied to it"""
+
+    def __init__(self, *a):
+        super().__init__(*a)
+        self.log = []
+
+    def __setitem__(self, k, v):
+        self.log.append(("set", k, v))
+        return dict.__setitem__(self, k, v)
+
+    def __delitem__(self, k):
+        self.log.append(("del", k, None))
+        return dict.__delitem__(self, k)
+
+    def pop(self, k, *d):
+        self.log.append(("del", k, None))
+        return dict.pop(self, k, *d)
+
+
 def sym_interfere(budget, warm, window=8):
-    """Worker A = the real get_array('0', ('m1','m2')); worker B's registry mutations may happen before any of A's
-    accesses to the shared registry."""
+    """Worker A = the real get_array('0', ('m1','m2')) on a context shared with worker B.  What B does to the SHARED
+    plugin registry is not assumed but recorded from the real code (B's own get_array for another run on the same
+    context, with a recording registry); the solver then decides before which of A's registry accesses B's next
+    recorded mutation happens."""
     import strax
 
     runs = RUNS[:2]
     MemFrontend, _, _ = ctx.make_storage_classes()
     st = ctx.make_context(_plugins(runs), storage=[MemFrontend()])
     ref = ctx.make_context(_plugins(runs), storage=[MemFrontend()]).get_array("0", ("m1", "m2"), processor="single_thread")
-    if warm:
-        st.get_array("1", ("m1", "m2"), processor="single_thread")  # warm plugin cache
-    st._plugin_class_registry = SpyDict(st._plugin_class_registry)
-    state = {"left": budget, "n": 0, "log": [], "last": None}
-
-    class TempB(strax.MergeOnlyPlugin):
-        depends_on = ("m1", "m2")
-        provides = ("_temp_other_worker",)
+    # ---- worker B's real call, recorded
+    rec = RecDict(st._plugin_class_registry)
+    st._plugin_class_registry = rec
+    st.get_array("1", ("m1", "m2"), processor="single_thread")
+    muts = list(rec.log)
+    if not warm:
+        st._fixed_plugin_cache = None
+        st._fixed_level_cache = None
+    st._plugin_class_registry = SpyDict(dict(rec))
+    state = {"left": min(budget, len(muts)), "n": 0, "log": [], "last": None, "next": 0}
 
     def hook(d, op):
         if state["left"] <= 0:
@@ -193,19 +217,13 @@ def sym_interfere(budget, warm, window=8):
             return
         state["left"] -= 1
         state["last"] = n
-        SpyDict.hook = None  # B's own accesses are not interleaved further
-        try:
-            kind = core.concretize(fresh_int(f"kind{n}", 0, 1))
-            if kind == 0:
-                dict.__setitem__(d, "_temp_other_worker", TempB)  # B: self.register(p) for its merge plugin
-                state["log"].append((n, op, "B registers its temp plugin"))
-            else:
-                for k in list(dict.keys(d)):  # B: the cleanup loop of get_iter
-                    if k.startswith("_temp"):
-                        dict.__delitem__(d, k)
-                state["log"].append((n, op, "B removes all temp plugins"))
-        finally:
-            SpyDict.hook = hook
+        kind, k, v = muts[state["next"]]
+        state["next"] += 1
+        if kind == "set":
+            dict.__setitem__(d, k, v)
+        elif dict.__contains__(d, k):
+            dict.__delitem__(d, k)
+        state["log"].append((n, op, f"B: {kind} {k}"))
 
     SpyDict.hook = hook
     exc = None
@@ -219,7 +237,7 @@ def sym_interfere(budget, warm, window=8):
     prove(exc is None, f"interfere:get_array crashed with {type(exc).__name__}: {str(exc)[:70]} after {state['log']}")
     prove([int(x) for x in got["id"]] == [int(x) for x in ref["id"]] and [int(x) for x in got["val"]] == [int(x) for x in ref["val"]],
           f"interfere:result differs from the sequential one after {state['log']}")
-    return state["log"]
+    return [len(muts), state["log"]]
 
 
 def nat_interfere(params, model):
